@@ -42,10 +42,11 @@ type envSetup struct {
 	threshold uint32
 }
 
+// envBounds: recipients and grants are 1..2 in both tiers. The thorough tier widens the numeric
+// ranges instead (threshold, total-share override, context and payload lengths, see below): with
+// 1..3 recipients and 1..3 grants the thorough C17 run (about 660k configurations) did not finish
+// within 20 minutes on 16 cores, so that bound was never run clean and is not claimed.
 func envBounds() (maxKeys, maxGrants int) {
-	if rt.Tier() > 0 {
-		return 3, 3
-	}
 	return 2, 2
 }
 
